@@ -54,6 +54,8 @@ pub fn big_lens() -> &'static [usize] {
             bases.push(168 << j);
             bases.push(136 << j);
         }
+        // decimal block sizes (a chunk of 100 kB, 1 MB, 2 MB, 5 MB, 10 MB)
+        bases.extend([100_000usize, 1_000_000, 2_000_000, 3_000_000, 5_000_000, 10_000_000]);
         let mut v = vec![];
         for b in bases {
             for pre in [0usize, 3, 4] {
@@ -949,10 +951,21 @@ fn eg_tally(plan: &Plan, lib: &dyn Lib, rec: &mut Rec) {
     let mut plain = vec![];
     for v in 0..voters {
         // plaintext scalars incl. 1 and r-1
-        let m = match (v + plan.seed as usize) % 5 {
+        let m = match (v + plan.seed as usize) % 6 {
             0 => refimpl::scalar_from_u64(1),
             1 => refimpl::scalar_neg_u64(1),
             2 => refimpl::scalar_from_u64(x.below(1000) + 2),
+            // machine-word boundaries: 2^k - 1, 2^k, 2^k + small for k = 8, 16, 31, 32, 33, 63, 64 and mid-range values
+            3 => {
+                let k = [8u32, 16, 31, 32, 33, 63, 64][x.below(7) as usize];
+                let base = if k == 64 { refimpl::scalar_from_u64(u64::MAX) + refimpl::scalar_from_u64(1) } else { refimpl::scalar_from_u64(1u64 << k) };
+                match x.below(4) {
+                    0 => base - refimpl::scalar_from_u64(1),
+                    1 => base,
+                    2 => base + refimpl::scalar_from_u64(x.below(1 << 20)),
+                    _ => refimpl::scalar_from_u64((1u64 << (k.min(63) - 1)) + (x.next() >> (65 - k.min(63)))),
+                }
+            }
             _ => refimpl::keygen(&x.bytes(16)),
         };
         let mb = refimpl::scalar_to_be(&m);
@@ -1218,6 +1231,6 @@ fn eg_transcripts(plan: &Plan, lib: &dyn Lib, rec: &mut Rec) {
 mod tests {
     #[test]
     fn big_count() {
-        assert_eq!(super::big_lens().len(), 182);
+        assert_eq!(super::big_lens().len(), 224);
     }
 }
